@@ -143,3 +143,47 @@ class HistoryGen:
             else:
                 steps.append(["rx", self.rx_line() + rng.choice(["\n", "\n", "\r\n", ""])])
         return steps
+
+
+# --------------------------------------------------------------------------------------------------
+# scale and full-table workloads (shared by C03, C04, C10): nothing in the statements is limited to a
+# handful of nodes or to a few type numbers
+
+def wide_unknown_nodes(n: int, *, with_presentations: bool = True) -> list[list]:
+    """n distinct unknown nodes each send a rejected message; each again; half present themselves; each again."""
+    ids = [i for i in range(1, 255)][:n]
+    steps = [["rx", f"{i};0;1;0;0;1\n"] for i in ids]
+    steps += [["rx", f"{i};255;3;0;0;50\n"] for i in ids]
+    if with_presentations:
+        steps += [["rx", f"{i};255;0;0;17;2.0\n"] for i in ids[::2]]
+        steps += [["rx", f"{i};3;2;0;0;\n"] for i in ids]
+    return steps
+
+
+def type_table_sweep(child_types: list[int], value_types: list[int], *, node: int = 1) -> list[list]:
+    """Present a child of every type, report every value type twice, request every value, re-present."""
+    steps: list[list] = [["rx", f"{node};255;0;0;17;2.0\n"]]
+    for ct in child_types:
+        steps.append(["rx", f"{node};{ct % 255};0;0;{ct};child type {ct}\n"])
+    for ct in child_types:
+        for vt in value_types:
+            steps.append(["rx", f"{node};{ct % 255};1;0;{vt};a{vt}\n"])
+    for ct in child_types:
+        for vt in value_types[::3]:
+            steps.append(["rx", f"{node};{ct % 255};1;0;{vt};b{vt}\n"])
+            steps.append(["rx", f"{node};{ct % 255};2;0;{vt};\n"])
+    return steps
+
+
+def presentation_type_sweep(types: list[int]) -> list[list]:
+    """Every presentation type number as node presentation and as child presentation, on known and unknown nodes."""
+    steps: list[list] = []
+    for t in types:
+        steps.append(["rx", f"1;255;0;0;17;2.0\n"])
+        steps.append(["rx", f"1;4;0;0;6;keep\n"])
+        steps.append(["rx", f"1;4;1;0;2;kept value\n"])
+        steps.append(["rx", f"1;3;0;0;{t};described {t}\n"])   # child presentation of type t on a known node
+        steps.append(["rx", f"1;4;2;0;2;\n"])                  # the other child and its value are still there
+        steps.append(["rx", f"9;3;0;0;{t};unknown node\n"])     # child presentation from an unknown node
+        steps.append(["rx", f"2;255;0;0;{t};2.1\n"])           # node presentation of type t
+    return steps
